@@ -123,6 +123,7 @@ fn cfgs_for(prop: &str, n: usize) -> Vec<RunCfg> {
                             pre_interrupted: 0,
                             on_clone: false,
                             unwind: vec![],
+                            rev_again: 0,
                         });
                     }
                 }
